@@ -10,7 +10,6 @@ declare -A PKG=(
  [kvm-time-from-wall-clock]=./mainchain/kvm/
  [sender-cache-ignores-signer]=./types/
  [receipt-logs-in-map-order]=./mainchain/blockchain/
- [m20-no-revert-on-tx-error]=./mainchain/blockchain/
 )
 printf "%-36s %-12s %-8s %s\n" mutant repo-tests quick-rc signatures
 for p in /verif/mutants/c06-*.patch; do
